@@ -2,7 +2,8 @@ import PoxModel.Base.Bytes
 /-! Model of `pox/lib/addresses.py` (IPAddr, IPAddr6, EthAddr, CIDR / netmask helpers, comparison helper) and of
 `dpid_to_str` / `str_to_dpid` in `pox/lib/util.py` (C16).  Core only, structural recursion only.
 
-Text is `Str = List Char` (ASCII; the drivers convert `String` ⇄ `List Char`).  Every Python operation that can raise stays
+Text is `Str = List Char`, i.e. code points (the driver decodes the UTF-8 it receives; `EthAddr(str)` works on the encoded bytes, one
+`Char` per byte).  `pyInt` is Python's `int()` for ASCII input only — after the repairs no address parser reaches it with anything else.  Every Python operation that can raise stays
 partial: `Except Err α`, `Err` = the Python exception class.  What is mirrored, by Python line:
 
 * string primitives: `str.split(c)` (`splitOn`), `str.split(c, n)` (`splitOnN`), `str.rsplit(c, 1)` (`rsplit1`),
